@@ -6,7 +6,7 @@ ROOT = os.path.dirname(HERE)
 src = json.load(open(os.path.join(HERE, "manifest_src.json")))
 md = os.path.join(HERE, "manifest.d")
 for fn in sorted(os.listdir(md)):
-    if fn.endswith(".json"):
+    if fn.endswith(".json") and fn[:-5] in src.get("enabled", []):
         src["checks"][fn[:-5]] = json.load(open(os.path.join(md, fn)))
 props = [json.loads(l) for l in open(os.path.join(ROOT, "properties.jsonl"))]
 checks = []
